@@ -1069,6 +1069,7 @@ Library read_gds(const char* filename, double unit, double tolerance, const Set<
                 path->num_elements = 1;
                 path->elements = (FlexPathElement*)allocate_clear(sizeof(FlexPathElement));
                 path->simple_path = true;
+                width = 0;
                 if (cell) cell->flexpath_array.append(path);
                 break;
             case GdsiiRecord::RAITHPXXDATA:
